@@ -21,6 +21,10 @@ pub struct Call {
     pub hay_unicode: bool,
     pub needle_unicode: bool,
     pub prior: Vec<u32>,
+    /// 1: the shared matcher is replaced by a clone of itself before this call (the original is dropped);
+    /// 2: this call runs on a temporary clone that is dropped afterwards
+    #[serde(default)]
+    pub clone_mode: u8,
 }
 
 #[derive(Clone, Debug, Serialize, Deserialize, Hash)]
@@ -65,11 +69,15 @@ fn call_strategy(pal: Vec<char>) -> BoxedStrategy<Call> {
                 }
                 _ => Text { motif: motif.iter().map(|&c| norm(c, cfg)).collect(), tile_to: ntile, tail: vec![] },
             };
-            Call { algo, indices, cfg, hay, needle, hay_unicode: hu, needle_unicode: nu, prior }
+            Call { algo, indices, cfg, hay, needle, hay_unicode: hu, needle_unicode: nu, prior, clone_mode: 0 }
         })
-        .prop_map(move |c| {
+        .prop_flat_map(move |c| {
             let _ = &pal2;
-            c
+            prop_oneof![88 => Just(0u8), 6 => Just(1u8), 6 => Just(2u8)].prop_map(move |m| {
+                let mut c = c.clone();
+                c.clone_mode = m;
+                c
+            })
         })
         .boxed()
 }
@@ -84,7 +92,7 @@ impl Check for C10 {
         "C10"
     }
     fn rule(&self) -> String {
-        "sequences of 1-6 calls sharing one Matcher (config switched per call): algorithm among the 12 entry points, haystack from a per-sequence palette (0-40 chars, 50-2500 tiled, or a limit size from {1023..1025, 320/321, 51200/51201, 65535/65536, 70000, 100000, 120000}), needle normalized-derived / raw not-normalized / tiled to {2,100,101,319,320,2047,2048,2049,3000}, representation bits, prior index content. Oracle: no panic or overflow (checked profile), every scratch view exported by the slab hook lies inside the slab allocation, and result + appended indices equal those of a freshly created matcher. Non-trivial: the sequence has >= 2 calls that reached the matrix allocator with different sizes, a later one smaller, or a call in a limit class. Distinct by case hash. The cargo-fuzz target fuzz_matcher (ASan + debug assertions) runs the same oracle coverage-guided in the thorough tier.".into()
+        "sequences of 1-6 calls sharing one Matcher (config switched per call): algorithm among the 12 entry points, haystack from a per-sequence palette (0-40 chars, 50-2500 tiled, or a limit size from {1023..1025, 320/321, 51200/51201, 65535/65536, 70000, 100000, 120000}), needle normalized-derived / raw not-normalized / tiled to {2,100,101,319,320,2047,2048,2049,3000}, representation bits, prior index content; before 12% of the calls the shared matcher is replaced by a clone of itself (original dropped) or the call runs on a temporary clone. Oracle: no panic or overflow (checked profile), every scratch view exported by the slab hook lies inside the slab allocation, and result + appended indices equal those of a freshly created matcher. Non-trivial: the sequence has >= 2 calls that reached the matrix allocator with different sizes, a later one smaller, or a call in a limit class. Distinct by case hash. The cargo-fuzz target fuzz_matcher (ASan + debug assertions) runs the same oracle coverage-guided in the thorough tier.".into()
     }
     fn assumptions(&self) -> Vec<String> {
         vec!["haystacks stay far below the documented 2^32 limit (memory)".into(), "Miri-grade provenance rules are not checked; 'forming references' is covered for the five slab views through the exported extents".into()]
@@ -117,10 +125,23 @@ impl Check for C10 {
                 limit_class = true;
             }
             let _ = nucleo_matcher::verif::take_last_slab_extents();
-            shared.config = c.cfg.to_config();
+            if c.clone_mode == 1 {
+                let cl = shared.clone();
+                shared = cl;
+                out.label("shared-matcher-replaced-by-its-clone");
+            }
+            let mut tmp;
+            let target: &mut Matcher = if c.clone_mode == 2 {
+                tmp = shared.clone();
+                out.label("call-on-temporary-clone");
+                &mut tmp
+            } else {
+                &mut shared
+            };
+            target.config = c.cfg.to_config();
             let r1 = guarded(|| {
                 let mut v = prior_vec(&c.prior, 2);
-                let r = call(&mut shared, c.algo, hay.get(hr), needle.get(nr), c.indices.then_some(&mut v));
+                let r = call(target, c.algo, hay.get(hr), needle.get(nr), c.indices.then_some(&mut v));
                 (r, v)
             });
             let ext = nucleo_matcher::verif::take_last_slab_extents();
@@ -264,7 +285,7 @@ pub fn decode_seq(data: &[u8]) -> SeqCase {
         };
         let r = b.byte();
         let prior = (0..(r >> 6)).map(|i| i as u32 * 7).collect();
-        calls.push(Call { algo, indices, cfg, hay, needle, hay_unicode: r & 1 != 0, needle_unicode: r & 2 != 0, prior });
+        calls.push(Call { algo, indices, cfg, hay, needle, hay_unicode: r & 1 != 0, needle_unicode: r & 2 != 0, prior, clone_mode: if (r >> 2) & 7 == 1 { 1 } else if (r >> 2) & 7 == 2 { 2 } else { 0 } });
     }
     SeqCase { calls }
 }
